@@ -47,6 +47,8 @@ pub enum Op {
     Delete { table: String, cond: Option<E> },
     /// content = `len` bytes: byte i is (seed + i) mod 251
     WriteStream { name: String, len: usize, seed: u8 },
+    /// like WriteStream, but the writer is dropped without an explicit flush
+    WriteStreamDrop { name: String, len: usize, seed: u8 },
     RemoveStream { name: String },
     ReadMissing { name: String },
     Summary(SumOp),
@@ -70,6 +72,7 @@ impl Op {
             Op::Update { .. } => "update",
             Op::Delete { .. } => "delete",
             Op::WriteStream { .. } => "write_stream",
+            Op::WriteStreamDrop { .. } => "write_stream",
             Op::RemoveStream { .. } => "remove_stream",
             Op::ReadMissing { .. } => "read_stream",
             Op::Summary(_) => "summary",
@@ -113,6 +116,7 @@ impl Op {
             ),
             Op::Delete { table, cond } => format!("delete({}{})", table, cond.as_ref().map(|c| format!(" where {}", c.show())).unwrap_or_default()),
             Op::WriteStream { name, len, seed } => format!("write_stream({:?},{}B,seed{})", name, len, seed),
+            Op::WriteStreamDrop { name, len, seed } => format!("write_stream({:?},{}B,seed{}; writer dropped unflushed)", name, len, seed),
             Op::RemoveStream { name } => format!("remove_stream({:?})", name),
             Op::ReadMissing { name } => format!("read_stream({:?})", name),
             Op::Summary(s) => format!("summary.{:?}", s),
@@ -225,7 +229,9 @@ impl Harness {
     /// alive (= what a crash right after the flush would leave).
     pub fn flush_and_peek(&mut self) -> Result<Vec<u8>, String> {
         match catch(|| self.p().flush()) {
-            Ok(Ok(())) => Ok(self.peek.bytes()),
+            // the image a write-back medium holds at this moment: a flush of the
+            // package that does not flush the medium leaves it stale
+            Ok(Ok(())) => Ok(self.peek.durable_bytes()),
             Ok(Err(e)) => Err(format!("flush failed: {}", e)),
             Err(pn) => Err(format!("flush panicked: {}", pn)),
         }
@@ -305,6 +311,14 @@ impl Harness {
                     Err(e) => io_res::<()>(Err(e)),
                     Ok(mut w) => {
                         let r = w.write_all(&stream_content(*len, *seed)).and_then(|_| w.flush());
+                        io_res(r)
+                    }
+                },
+                Op::WriteStreamDrop { name, len, seed } => match p.write_stream(name) {
+                    Err(e) => io_res::<()>(Err(e)),
+                    Ok(mut w) => {
+                        let r = w.write_all(&stream_content(*len, *seed));
+                        drop(w);
                         io_res(r)
                     }
                 },
@@ -776,7 +790,7 @@ impl Model {
                 }
                 Expect::Ok
             }
-            Op::WriteStream { name, len, seed } => {
+            Op::WriteStream { name, len, seed } | Op::WriteStreamDrop { name, len, seed } => {
                 let c = stream_name_class(name);
                 if c == Tri::Reject {
                     return Expect::Err;
